@@ -31,7 +31,9 @@ fn main() {
             let iface = arg(&args, "--iface").unwrap_or("org.verif.a".into());
             let svc = VarlinkService::new("verif", "svc", "1", "http://verif", vec![Box::new(scripted(&iface)), Box::new(scripted("org.verif.shared"))]);
             let idle = arg(&args, "--idle").and_then(|s| s.parse().ok()).unwrap_or(30);
-            let r = varlink::listen(svc, &address.expect("--address"), &varlink::ListenConfig { idle_timeout: idle, ..Default::default() });
+            // --workers N: a service that serves at most N connections at a time
+            let workers: usize = arg(&args, "--workers").and_then(|s| s.parse().ok()).unwrap_or(100);
+            let r = varlink::listen(svc, &address.expect("--address"), &varlink::ListenConfig { idle_timeout: idle, max_worker_threads: workers, ..Default::default() });
             match r {
                 Ok(()) => {}
                 Err(e) if *e.kind() == varlink::ErrorKind::Timeout => {}
